@@ -233,17 +233,29 @@ CLAIMS.update({
                   "typing rules; call-chain bound => no recursion report) + certified generation + differential correspondence",
         design_ref="DESIGN.md §9 C11, docs/check_component.md", note=CHECK_NOTE),
     "C16": dict(
-        text="PARTIAL. Proved for all ASTs / Process objects: the verdict is valid iff nothing was printed "
+        text="Proved for EVERY text (all character strings, Properties/C16text.v): the composed model validate_text = "
+             "character lexer (Front/CharLexer.v) + denter + parser (Front/Parser.v) + validator (Check/CheckModel.v) always "
+             "returns a verdict - never an exception, never out of fuel (C16_text_always_a_verdict, C16_text_no_exception, "
+             "C16_text_terminates; the parser's output satisfies from_grammar: C16_parser_output_from_grammar) - and answers "
+             "valid exactly when the message list is empty (C16_text_valid_iff_no_message); a syntax error or an illegal "
+             "character gives invalid with a message and no Process (C16_text_syntax_error_invalid, "
+             "C16_text_illegal_character_invalid). Not modelled: the interpreter's recursion limit (D29: parse_string raised "
+             "RecursionError beyond ~245 nesting levels; repaired in /repo, the implementation now answers invalid there while "
+             "the model accepts), ANTLR's error recovery (the model stops at the first syntax error; only verdict and "
+             "non-emptiness are compared at text level), json.loads escapes. The 'no order can be started' clause is checked on "
+             "the implementation by the monitor only. On ASTs: the verdict is valid iff nothing was printed "
              "(C16_verdict_iff_no_message); every check_* method and validate_process return True iff they printed nothing "
              "(C16_checker_flag_matches_output); validation terminates; and for every AST of the shape the grammar produces "
              "(from_grammar: a condition on paths and literals that the parser guarantees; shown necessary) validation returns "
              "a list of messages, no exception escapes (C16_always_a_verdict, C16_no_exception). The ten crash sites found "
-             "earlier (D11a, D11c, D11d) were repaired in /repo; their witnesses now yield one message each. NOT covered by a "
-             "theorem: arbitrary strings (lexer, parser, json.loads) - a fuzz stream of character/token mutations, truncations, "
-             "random token sequences and random bytes is checked by a monitor (verdict, no exception, valid iff silent, same in "
-             "both formats; invalid => start() False, fire_event False); it found D22 and D23, both repaired.",
-        technique="Coq proof (closure of the check combinators; unguarded lookups reached only after a successful access "
-                  "check) + differential correspondence + fuzzing with a monitor",
+             "earlier (D11a, D11c, D11d) were repaired in /repo; their witnesses now yield one message each. Correspondence: "
+             "validate_text evaluated in coqc vs parse_string on generated, mutated, degenerate and fuzz texts (verdict, printed "
+             "something, no Process); a fuzz stream of character/token mutations, truncations, random token sequences and random "
+             "bytes is checked by a monitor (verdict, no exception, valid iff silent, same in both formats; invalid => start() "
+             "False, fire_event False); it found D22, D23 and D29, all repaired.",
+        technique="Coq proof (totality of the composed text pipeline: fuel sufficiency of the parser, parser output has the "
+                  "grammar's shape, closure of the check combinators) + differential correspondence on texts and ASTs + fuzzing "
+                  "with a monitor",
         design_ref="DESIGN.md §9 C16, docs/check_component.md", note=CHECK_NOTE),
     "C19": dict(
         text="PARTIAL. Proved on AST positions for all programs: every message printed while a statement is checked carries a "
